@@ -90,7 +90,90 @@ theorem read_computes (P : Prog) (n : Nat) (st : St) (i h : Nat) (hc : Computes 
     eval P (n + 1) st (.read i h) =
       (post (getResult P n st i h).1,
        store ((getResult P n st i h).2.setReading i h (st.reading i h)) i h (post (getResult P n st i h).1)) := by
-  simp only [eval, unmark_gen, stored_gen, hc.1, hc.2, getResult]
+  simp only [eval, unmark_gen, stored_gen, errTask_gen, finish, hc.1, hc.2, getResult]
+
+/-! ### 0b. the error paths (T): what the construction of the exception evaluates
+
+`driver/translate/c07_errpath.py` reads, for every block of `Hook.__get__` that is entered when a check on the outcome of
+`get_result` fails, what the block evaluates: the format fields of the message, the arguments of the exception and of `logger`
+calls, any other statement (`PyrollModel/Gen/C07ErrPath.lean`).  `self.name`, `type(instance).__name__` are effect-free;
+`{instance}` is `str(instance)`, resolved against every `__str__` of the package's host classes (type name and plain data
+attributes only); `{instance!r}`, `instance.__attrs__`, `f(instance)` are evaluations ON the instance.  The model's
+`Hook.__get__` ends with the step `finish (errTask P i r)`: when the entry of the failing check in `onInstance` is not empty it
+runs the instance's `__attrs__` program before raising. -/
+
+/-- **Source tie, consumed part (error paths)**: for the tables as generated the error-path step does nothing - no failing
+    check evaluates anything on the instance -; the blocks read are exactly the checks the model applies (same conditions, same
+    exceptions, same order as `getChecks`, which comes from the other extractor); the `except` / `finally` clauses of
+    `HookFunction.__call__` and `has_value` evaluate nothing on the instance either. -/
+theorem error_path_source_consumed :
+    (∀ (P : Prog) (i : Nat) (r : Res), errTask P i r = none) ∧
+    Gen.C07.ErrPath.raises.map (fun p => (p.1, p.2.1)) = Gen.C07.Hooks.getChecks ∧
+    Gen.C07.ErrPath.onInstance.length = Gen.C07.Hooks.getChecks.length ∧
+    Gen.C07.ErrPath.onInstance.all List.isEmpty = true ∧
+    Gen.C07.ErrPath.strEvaluates = [] ∧ Gen.C07.ErrPath.callHandlers = [] :=
+  ⟨errTask_gen, by decide, by decide, by decide, by decide, by decide⟩
+
+/-- a host whose `__attrs__` reads hook 1 (as a roll pass reads `gap`); hook 0 yields nan, hook 1 yields 2 -/
+def attrsProg : Prog :=
+  { chain := fun h => [h]
+    body := fun f => if f = 0 then .ret (.flt .nan) else .ret (.int 2)
+    attrs := fun _ => .read none 1 (.ret .none) }
+
+/-- the same host, but nothing provides hook 1 (a roll pass without gap and height) -/
+def attrsProgIncomplete : Prog :=
+  { chain := fun h => if h = 0 then [0] else []
+    body := fun _ => .ret (.flt .nan)
+    attrs := fun _ => .read none 1 (.ret .none) }
+
+/-- the table of a source whose ValueError message formats the instance with `!r` -/
+def reprTable : List (List String) := [[], [], ["repr(instance)"]]
+
+/-- the model really follows the table: for that source the failing finiteness check runs the `__attrs__` program, the other
+    checks and successful reads do not; for the generated table nothing is run -/
+example : errTaskWith reprTable Gen.C07.Hooks.getChecks attrsProg 0 (.val (.flt .nan)) = some (.read none 1 (.ret .none)) ∧
+    errTaskWith reprTable Gen.C07.Hooks.getChecks attrsProg 0 (.val .none) = none ∧
+    errTaskWith reprTable Gen.C07.Hooks.getChecks attrsProg 0 (.val (.int 3)) = none ∧
+    errTaskWith reprTable Gen.C07.Hooks.getChecks attrsProg 0 (.exc (.other 3)) = none ∧
+    errTaskWith [["instance.__attrs__"], [], []] Gen.C07.Hooks.getChecks attrsProg 0 (.exc .recursionError)
+      = some (.read none 1 (.ret .none)) ∧
+    errTask attrsProg 0 (.val (.flt .nan)) = none := by decide
+
+/-- a computing `Hook.__get__` whose error paths are those of the table `tbl` (the reads nested inside: as generated) -/
+def readWithErrTable (tbl : List (List String)) (P : Prog) (n : Nat) (st : St) (i h : Nat) : Res × St :=
+  finish (errTaskWith tbl Gen.C07.Hooks.getChecks P i (getResult P n st i h).1) (eval P n) i (post (getResult P n st i h).1)
+    (store ((getResult P n st i h).2.setReading i h (st.reading i h)) i h (stored (getResult P n st i h).1))
+
+/-- … with the generated table it is the model's `Hook.__get__` -/
+theorem readWithErrTable_generated (P : Prog) (n : Nat) (st : St) (i h : Nat) (hc : Computes st i h) :
+    readWithErrTable Gen.C07.ErrPath.onInstance P n st i h = eval P (n + 1) st (.read i h) := by
+  simp only [eval, hc.1, hc.2, getResult, readWithErrTable, errTask]
+
+example : Computes init 0 0 := ⟨rfl, rfl⟩
+
+/-- **Why the error path must evaluate nothing on the instance** (the obligation `errTask_gen` is not idle): with a message
+    that formats the instance with `repr`, on a host whose `__attrs__` reads a hook, (1) the failing read still raises
+    ValueError but the hook read while building the message is remembered - a residue of the failed read, which the model with
+    the generated table does not leave -; (2) if that hook has no value, the documented ValueError is replaced by the
+    AttributeError raised while the message is built.  Replayed on the implementation by the oracle stream `hosts`. -/
+theorem error_path_evaluation_leaves_residue :
+    (readWithErrTable reprTable attrsProg 10 init 0 0).1 = .exc .valueError ∧
+    (readWithErrTable reprTable attrsProg 10 init 0 0).2.cache 0 1 = some (.int 2) ∧
+    (readHook attrsProg 11 init 0 0).1 = .exc .valueError ∧
+    (readHook attrsProg 11 init 0 0).2.cache 0 1 = none ∧
+    (readWithErrTable reprTable attrsProgIncomplete 10 init 0 0).1 = .exc .attributeError ∧
+    (readHook attrsProgIncomplete 11 init 0 0).1 = .exc .valueError := by decide
+
+/-- The construction of the error leaves the state alone: a computing read that fails - whichever check converts the
+    outcome, or an exception of an implementation passing through - ends in exactly the state `get_result` left (the ghost
+    `reading` reset): nothing is evaluated, stored or marked after `get_result` returned. -/
+theorem failed_read_leaves_state_of_get_result (P : Prog) (n : Nat) (st : St) (i h : Nat) (hc : Computes st i h) (e : Exc)
+    (hf : post (getResult P n st i h).1 = .exc e) :
+    eval P (n + 1) st (.read i h) = (.exc e, (getResult P n st i h).2.setReading i h (st.reading i h)) := by
+  rw [read_computes P n st i h hc, hf]; rfl
+
+example : post (getResult attrsProg 10 init 0 0).1 = .exc .valueError ∧
+    post (getResult attrsProgIncomplete 10 init 0 1).1 = .exc .attributeError := by decide
 
 /-! ## 1. the documented error -/
 
@@ -167,7 +250,7 @@ example : (Val.set 3).nonNumeric := trivial
 innermost `Hook.__get__` whose `get_result` it leaves converts it. -/
 theorem read_never_recursion_error (P : Prog) (n : Nat) (st : St) (i h : Nat) :
     (eval P (n + 1) st (.read i h)).1 ≠ .exc .recursionError := by
-  simp only [eval, unmark_gen, stored_gen]
+  simp only [eval, unmark_gen, stored_gen, errTask_gen, finish]
   split
   · simp
   · split
@@ -202,7 +285,7 @@ theorem runaway_mutual_recursion (n i h : Nat) :
       (eval pingPong n st task).1.isLimitErr ∧ (eval pingPong n st task).2.cache = init.cache := by
     intro n
     induction n with
-    | zero => intro st task _ hc _; simp only [eval, unmark_gen, stored_gen]; exact ⟨.inl rfl, hc⟩
+    | zero => intro st task _ hc _; simp only [eval, unmark_gen, stored_gen, errTask_gen, finish]; exact ⟨.inl rfl, hc⟩
     | succ n ih =>
       intro st task hd hc ht
       cases task with
@@ -215,7 +298,7 @@ theorem runaway_mutual_recursion (n i h : Nat) :
         cases fs with
         | nil => simp at ht
         | cons f fs =>
-          simp only [eval, unmark_gen, stored_gen]
+          simp only [eval, unmark_gen, stored_gen, errTask_gen, finish]
           obtain ⟨h1, h2⟩ := ih (st.setMark f i true) (.body f i (st.marks f i) 0 (pingPong.body f)) hd hc
             ⟨none, 1 - f, .retAcc 1, rfl⟩
           generalize eval pingPong n (st.setMark f i true) (.body f i (st.marks f i) 0 (pingPong.body f)) = res at h1 h2
@@ -226,7 +309,7 @@ theorem runaway_mutual_recursion (n i h : Nat) :
       | body f i cyc acc b =>
         obtain ⟨r, k, c, hb⟩ := ht
         subst hb
-        simp only [eval, unmark_gen, stored_gen]
+        simp only [eval, unmark_gen, stored_gen, errTask_gen, finish]
         obtain ⟨h1, h2⟩ := ih st (.read (resolve i r) k) hd hc trivial
         generalize eval pingPong n st (.read (resolve i r) k) = res at h1 h2
         obtain ⟨r1, st1⟩ := res
@@ -288,7 +371,7 @@ theorem failed_read_remembers_nothing (P : Prog) (n : Nat) (st : St) (i h : Nat)
   cases n with
   | zero => simp [readHook, eval]
   | succ n =>
-    simp only [readHook, eval, unmark_gen, stored_gen] at hfail hre ⊢
+    simp only [readHook, eval, unmark_gen, stored_gen, errTask_gen, finish] at hfail hre ⊢
     split at hfail
     · cases hfail
     · split at hfail
